@@ -173,7 +173,7 @@ func Run(progs []Prog, timeout time.Duration) (map[string]Result, error) {
 		if _, err := os.Stat(exe); err != nil {
 			msg := perPkg[name]
 			if msg == "" {
-				if buildErr == nil && timeout <= 0 {
+				if (buildErr == nil || strings.Contains(string(out), "no main packages to build")) && timeout <= 0 {
 					// build-only mode and `go build` succeeded: the package is not a command (a
 					// mutation renamed `package main`), which is a valid outcome of a build
 					res[name] = Result{}
